@@ -35,6 +35,8 @@ def case(cid, rng, kind, padded, est):
     from sklearn.linear_model import LinearRegression, Ridge
     f, t = int(rng.integers(1, 5)), int(rng.integers(1, 5))
     Q, Qden = None, 1
+    if kind == "offset":
+        t = f = int(rng.integers(2, 5))      # rotation plus translation: the linear fit (with intercept) has orthogonal coefficients
     if kind == "recover":
         if padded:
             f = int(rng.integers(1, 5)); t = int(rng.integers(f, 5))
@@ -56,6 +58,11 @@ def case(cid, rng, kind, padded, est):
         if padded and f < t and np.any((Xp @ Qm)[:, t:]):
             pass
         Q = Qm
+    elif kind == "offset":
+        Qm, Qden = rat_orth(rng, f)
+        X = (np.clip(X, -2, 2) + rng.integers(1, 3, size=f)) * Qden           # uncentred source (small: the residual stays in range)
+        Y = (X @ Qm) // Qden + rng.integers(-2, 3, size=t) * Qden
+        est = "default"
     else:
         Y = rng.integers(-4, 5, size=(n, t))
         if kind == "noisy-linear":
@@ -109,8 +116,8 @@ def gen(args):
     rng = np.random.default_rng([sd, wid, 1818])
     out = []
     for i in range(n):
-        kind = ["random", "noisy-linear", "recover"][i % 3]
-        padded = bool(rng.integers(2))
+        kind = ["random", "noisy-linear", "recover", "random", "noisy-linear", "recover", "offset"][i % 7]
+        padded = bool(rng.integers(2)) if kind != "offset" else False
         est = "default" if padded else ["default", "lr0", "ridge"][int(rng.integers(3))]
         out.append(case("w%d-%d" % (wid, i), rng, kind, padded, est))
     return out
